@@ -16,37 +16,48 @@ Inductive pattern :=
 | PMessageOnly   (* feeds the wording of an error message only *)
 | PTestOnly.     (* test utilities, not reachable from MakeDecision *)
 
-Definition classified : list (string * pattern) := [
-  ("logic/biases/anchoring/anchoring.go:matchScalingWithBounding#0", PAssign);
-  ("logic/biases/anchoring/ideal-reference-alternative-evaluator.go:extractCriteriaValues#0", PAssign);
-  ("logic/biases/anchoring/ideal-reference-alternative-evaluator.go:prepareCriteriaWithCoefficients#0", PAssign);
-  ("logic/biases/anchoring/inline-anchoring-applier.go:*InlineAnchoringApplier.ApplyAnchoring#0", PAssign);
-  ("logic/biases/anchoring/inline-anchoring-applier.go:arithmeticAverage#0", PAccumulate);
-  ("logic/biases/anchoring/inline-anchoring-applier.go:arithmeticAverage#1", PAssign);
-  ("logic/biases/criteria-mixing/criteria-mixing.go:*criteriaToMix.mix#0", PAssign);
-  ("logic/limited-rationality/satisfaction-levels/satisfaction-levels-update.go:*SatisfactionLevelsUpdateListeners.Fetch#0", PMessageOnly);
-  ("logic/preference-func/choquet/choquet-integral.go:prepareCriteriaInAscendingOrder#0", PChoquetTies);
-  ("logic/preference-func/choquet/choquet-integral_parsing.go:remapWeights#0", PMergeVerdict);
-  ("logic/preference-func/choquet/choquet-integral_parsing.go:prepareWeights#0", PMergeVerdict);
-  ("logic/preference-func/electreIII/electre_III-bias-listener.go:*ElectreIIIBiasLIstener.Merge#0", PAssign);
-  ("logic/preference-func/electreIII/electre_III-bias-listener.go:*ElectreIIIBiasLIstener.Merge#1", PMergeVerdict);
-  ("logic/preference-func/electreIII/electre_III-bias-listener.go:*ElectreIIIBiasLIstener.RankCriteriaAscending#0", PAssign);
-  ("logic/preference-func/owa/owa-bias-listener.go:*OwaBiasListener.Merge#0", PCollectSort);
-  ("logic/preference-func/owa/owa.go:sortAlternativeCriteriaWeights#0", PCollectSort);
-  ("model/alternative.go:*AlternativeWithCriteria.WithCriterion#0", PAssign);
-  ("model/bias-listener.go:PrepareCumulatedWeightsMap#0", PAccumulate);
-  ("model/bias.go:ChooseBiases#0", PMessageOnly);
-  ("model/weights.go:*Weights.Merge#0", PAssign);
-  ("model/weights.go:*Weights.Merge#1", PMergeVerdict);
-  ("model/weights.go:*Weights.Copy#0", PAssign);
-  ("model/weights.go:*Weights.AsKeyValue#0", PCollectSort);
-  ("testUtils/test_utils.go:ValidateWeights#0", PTestOnly)
+(* key, pattern, fingerprint of the range statement, fingerprint of the enclosing function body (tools/gotools/mapranges: the
+   function's own identifiers are renamed by first occurrence, so renaming the function or its locals, or moving it to another
+   file, changes neither) *)
+Definition classified : list (string * pattern * string * string) := [
+  ("logic/biases/anchoring/anchoring.go:matchScalingWithBounding#0", PAssign, "b6708065d59ede9a", "17691802d77a2eaf");
+  ("logic/biases/anchoring/ideal-reference-alternative-evaluator.go:extractCriteriaValues#0", PAssign, "179ac57db6e7b62e", "b2cba098083e14cc");
+  ("logic/biases/anchoring/ideal-reference-alternative-evaluator.go:prepareCriteriaWithCoefficients#0", PAssign, "e9a2cccc1cdee4ed", "f17a002668306539");
+  ("logic/biases/anchoring/inline-anchoring-applier.go:*InlineAnchoringApplier.ApplyAnchoring#0", PAssign, "c6e1f8b03cda2ee6", "7adb904c5f47d2ae");
+  ("logic/biases/anchoring/inline-anchoring-applier.go:arithmeticAverage#0", PAccumulate, "89c824b816baf202", "cfd5cf58dbfbb4d5");
+  ("logic/biases/anchoring/inline-anchoring-applier.go:arithmeticAverage#1", PAssign, "c2107148b96ab0e4", "cfd5cf58dbfbb4d5");
+  ("logic/biases/criteria-mixing/criteria-mixing.go:*criteriaToMix.mix#0", PAssign, "f5cbaab39a1cbdd8", "2782e8946b46aa62");
+  ("logic/limited-rationality/satisfaction-levels/satisfaction-levels-update.go:*SatisfactionLevelsUpdateListeners.Fetch#0", PMessageOnly, "b852301e47161a66", "089e65b6e0629823");
+  ("logic/preference-func/choquet/choquet-integral.go:prepareCriteriaInAscendingOrder#0", PChoquetTies, "e44f246c2c555065", "177b5e30e003ba48");
+  ("logic/preference-func/choquet/choquet-integral_parsing.go:remapWeights#0", PMergeVerdict, "68e9a450d773f86e", "50541994eb9d8edc");
+  ("logic/preference-func/choquet/choquet-integral_parsing.go:prepareWeights#0", PMergeVerdict, "0c748aa2932ae3bc", "25083f5403e063c6");
+  ("logic/preference-func/electreIII/electre_III-bias-listener.go:*ElectreIIIBiasLIstener.Merge#0", PAssign, "659c69d4d95f881c", "5899b1b64a9a8dc8");
+  ("logic/preference-func/electreIII/electre_III-bias-listener.go:*ElectreIIIBiasLIstener.Merge#1", PMergeVerdict, "4d27b1288a5b61d9", "5899b1b64a9a8dc8");
+  ("logic/preference-func/electreIII/electre_III-bias-listener.go:*ElectreIIIBiasLIstener.RankCriteriaAscending#0", PAssign, "f441b0f6046bf5e4", "edb1ea993f14fb6d");
+  ("logic/preference-func/owa/owa-bias-listener.go:*OwaBiasListener.Merge#0", PCollectSort, "5ef1f71755f322a4", "c4a4bcd94bbdbc6b");
+  ("logic/preference-func/owa/owa.go:sortAlternativeCriteriaWeights#0", PCollectSort, "0ac3bd7b5761ffc2", "333859f80265bb01");
+  ("model/alternative.go:*AlternativeWithCriteria.WithCriterion#0", PAssign, "ce579f0e9fdaf89f", "c04e76bc54b6b529");
+  ("model/bias-listener.go:PrepareCumulatedWeightsMap#0", PAccumulate, "22d59760823742dc", "a8fc292e4811d834");
+  ("model/bias.go:ChooseBiases#0", PMessageOnly, "72795329569d95ce", "875f3b5e0fce9ac4");
+  ("model/weights.go:*Weights.Merge#0", PAssign, "6924b76869ec8c18", "7c286e23b32981a2");
+  ("model/weights.go:*Weights.Merge#1", PMergeVerdict, "e8b7ef97078b3ba3", "7c286e23b32981a2");
+  ("model/weights.go:*Weights.Copy#0", PAssign, "6924b76869ec8c18", "66deff307a372a5f");
+  ("model/weights.go:*Weights.AsKeyValue#0", PCollectSort, "512a97b4196e2000", "1f718f8d600a54ca");
+  ("testUtils/test_utils.go:ValidateWeights#0", PTestOnly, "f9abb41c1882eee8", "61a03841eaf508ff")
 ].
 
-Fixpoint class_of (k : string) (l : list (string * pattern)) : option pattern :=
-  match l with [] => None | (k', p) :: r => if String.eqb k k' then Some p else class_of k r end.
+(* patterns whose order-independence is a property of the loop alone; for the others (what happens to the collected
+   entries AFTER the loop matters) the whole function has to be the classified one *)
+Definition self_contained (p : pattern) : bool :=
+  match p with PAssign | PAccumulate | PMergeVerdict => true | _ => false end.
 
-Definition covered (site : string * string) : bool :=
-  match class_of (fst site) classified with Some _ => true | None => false end.
+(* a site of the source is covered when its code is the code that was classified: the same loop (self-contained patterns),
+   or a function whose whole body is that of a classified site - wherever it now lives and whatever it is called. The key
+   (place and name) is kept for the reader only: a loop that keeps its place but changes its body is NOT covered. *)
+Definition covered (site : string * string * (string * string)) : bool :=
+  let '(_, _, (lfp, ffp)) := site in
+  existsb (fun c => let '(_, p, l, f) := c in (self_contained p && String.eqb l lfp) || String.eqb f ffp) classified.
+
+Definition uncovered_sites : list string := map (fun s => fst (fst s)) (filter (fun s => negb (covered s)) map_range_sites).
 
 Definition all_covered : bool := forallb covered map_range_sites.
